@@ -295,7 +295,16 @@ void rtosc_v2argvals(rtosc_arg_val_t *args,
     for(size_t i=0; i<nargs; ++i, ++arg_str, ++args)
     {
         args->type = *arg_str;
-        rtosc_v2args(&args->val, 1, arg_str, &ap2);
+        //types without a value consume no vararg (rtosc_v2args would scan
+        //on past the end of the type string looking for one that does)
+        switch(*arg_str)
+        {
+            case 'T': args->val.T = 1; break;
+            case 'F': args->val.T = 0; break;
+            case 'N': case 'I': break;
+            default:
+                rtosc_v2args(&args->val, 1, arg_str, &ap2);
+        }
     }
     va_end(ap2.a);
 }
